@@ -1,6 +1,283 @@
-//! C19 — not implemented yet.
-use crate::core::Ctx;
-use serde_json::Value;
+//! C19 — a mounted directory serves exactly its files, byte-identical, and nothing else (DESIGN §5 C19).
+//!
+//! configuration = directory tree (generated on disk) × omit_extensions × mount route × optional sibling
+//! param route (+ optional symlink to a file outside, + an on-disk modification after mounting);
+//! requests = every file path, every directory path, traversal / encoding / near-miss variants.
+//! Oracle: path → (bytes, mime) map computed from the tree; everything else is 404.
 
-pub fn run(ctx: &mut Ctx) { ctx.machinery_error("C19 engine not implemented".into()); }
-pub fn replay(ctx: &mut Ctx, _case: &Value) { ctx.machinery_error("C19 engine not implemented".into()); }
+use crate::app::{self, Outcome};
+use crate::core::{combinations, panic_kind, Ctx};
+use crate::refmodel::router::{admissible, Entry, Match};
+use ohkami::__verif__::{DynItem, DynRouting, VerifRouter};
+use ohkami::{Ohkami, Route};
+use serde::{Deserialize, Serialize};
+use serde_json::{json, Value};
+use std::collections::BTreeMap;
+use std::path::{Path, PathBuf};
+
+const DIRS: [&str; 4] = ["", "d", "ab", "d/ab"];
+const FILES: [&str; 8] = ["index.html", "a.html", "a.txt", "ab.txt", "b.css", "x.y.js", "p.png", "empty.json"];
+
+fn mime_of(name: &str) -> &'static str {
+    match name.rsplit('.').next().unwrap() {
+        "html" => "text/html", "txt" => "text/plain", "css" => "text/css", "js" => "text/javascript",
+        "png" => "image/png", "json" => "application/json", _ => "?",
+    }
+}
+
+fn content_of(dir: &str, name: &str) -> Vec<u8> {
+    match name {
+        "empty.json" => vec![],
+        "p.png" => { let mut v: Vec<u8> = (0..=255u8).collect(); v.extend_from_slice(dir.as_bytes()); v }
+        n => format!("content of {n} in [{dir}]\r\n\r\nHTTP/1.1 200 OK\r\n").into_bytes(),
+    }
+}
+
+#[derive(Clone, Debug, Serialize, Deserialize, PartialEq)]
+pub struct Config {
+    /// (dir, file name)
+    pub entries: Vec<(String, String)>,
+    pub omit: Vec<String>,
+    pub mount: String,
+    pub param_sibling: bool,
+    pub symlink_outside: bool,
+    /// after mounting: overwrite the first file, delete the last one, add `new.txt`
+    pub mutate_after_mount: bool,
+}
+
+fn leak(s: &str) -> &'static str { Box::leak(s.to_string().into_boxed_str()) }
+
+fn work_root() -> PathBuf {
+    let base = std::env::var("VERIF_SHARD_WORK").map(PathBuf::from).unwrap_or_else(|_| {
+        let exe = std::env::current_exe().unwrap();
+        // <root>/.target/verif/vmc -> <root>/.work
+        exe.parent().and_then(Path::parent).and_then(Path::parent).map(|r| r.join(".work")).unwrap_or_else(std::env::temp_dir)
+    });
+    base.join(format!("c19-{}", std::process::id()))
+}
+
+/// expected table: request path (segments joined) -> (rel file, bytes, mime)
+fn expected_map(c: &Config) -> Result<BTreeMap<String, (String, Vec<u8>, &'static str)>, String> {
+    let mut m: BTreeMap<String, (String, Vec<u8>, &'static str)> = BTreeMap::new();
+    let base = c.mount.trim_end_matches('/').to_string();
+    let mut put = |path: String, rel: &str, bytes: Vec<u8>, mime: &'static str| -> Result<(), String> {
+        let key = if path.is_empty() { "/".to_string() } else { path };
+        if m.insert(key.clone(), (rel.to_string(), bytes, mime)).is_some() { return Err(format!("two files map to {key}")) }
+        Ok(())
+    };
+    for (dir, name) in &c.entries {
+        let rel = if dir.is_empty() { name.clone() } else { format!("{dir}/{name}") };
+        let bytes = content_of(dir, name);
+        let mime = mime_of(name);
+        let dir_path = if dir.is_empty() { base.clone() } else { format!("{base}/{dir}") };
+        let ext = name.rsplit('.').next().unwrap();
+        let omitted = c.omit.iter().any(|e| e == ext);
+        if name == "index.html" {
+            put(dir_path.clone(), &rel, bytes.clone(), mime)?;
+            if !omitted { put(format!("{dir_path}/{name}"), &rel, bytes, mime)?; }
+            // with `html` omitted the statement leaves `/index` open (see `ambiguous_paths`)
+        } else if omitted {
+            put(format!("{dir_path}/{}", &name[..name.len() - ext.len() - 1]), &rel, bytes, mime)?;
+        } else {
+            put(format!("{dir_path}/{name}"), &rel, bytes, mime)?;
+        }
+    }
+    Ok(m)
+}
+
+fn ambiguous_paths(c: &Config) -> Vec<String> {
+    let base = c.mount.trim_end_matches('/').to_string();
+    let mut v = vec![];
+    if c.omit.iter().any(|e| e == "html") {
+        for (dir, name) in &c.entries { if name == "index.html" {
+            v.push(if dir.is_empty() { format!("{base}/index") } else { format!("{base}/{dir}/index") });
+        } }
+    }
+    v
+}
+
+fn materialize(c: &Config, root: &Path) -> std::io::Result<PathBuf> {
+    let _ = std::fs::remove_dir_all(root);
+    let served = root.join("served");
+    std::fs::create_dir_all(&served)?;
+    for (dir, name) in &c.entries {
+        let d = served.join(dir);
+        std::fs::create_dir_all(&d)?;
+        std::fs::write(d.join(name), content_of(dir, name))?;
+    }
+    std::fs::create_dir_all(root.join("outside"))?;
+    std::fs::write(root.join("outside").join("secret.txt"), b"TOP SECRET outside the served directory")?;
+    if c.symlink_outside {
+        std::os::unix::fs::symlink(root.join("outside").join("secret.txt"), served.join("ln.txt"))?;
+    }
+    Ok(served)
+}
+
+fn build(c: &Config, served: &Path) -> Result<VerifRouter, String> {
+    crate::core::guarded(|| {
+        let mut dir = leak(&c.mount).Dir(leak(served.to_str().unwrap()));
+        dir = match c.omit.len() {
+            0 => dir, 1 => dir.omit_extensions([leak(&c.omit[0])]), 2 => dir.omit_extensions([leak(&c.omit[0]), leak(&c.omit[1])]),
+            n => panic!("c19: {n} omit extensions not generated"),
+        };
+        let mut items = vec![];
+        if c.param_sibling {
+            let route = if c.mount == "/" { "/:p".to_string() } else { format!("{}/:p", c.mount) };
+            items.push(DynItem::Handlers(leak(&route).GET(|p: String| async move { format!("PARAM:{p}") })));
+        }
+        items.push(DynItem::Dir(dir));
+        VerifRouter::from(Ohkami::new(DynRouting(items)))
+    })
+}
+
+fn requests(c: &Config, exp: &BTreeMap<String, (String, Vec<u8>, &'static str)>) -> Vec<(String, String, &'static str)> {
+    let base = c.mount.trim_end_matches('/').to_string();
+    let mut out: Vec<(String, String, &'static str)> = vec![];
+    let mut add = |m: &str, p: String, kind: &'static str| { if !out.iter().any(|(mm, pp, _)| mm == m && *pp == p) { out.push((m.to_string(), p, kind)) } };
+    for p in exp.keys() {
+        add("GET", p.clone(), "file");
+        add("HEAD", p.clone(), "file-head");
+        add("POST", p.clone(), "file-post");
+        if p != "/" { add("GET", format!("{p}/"), "file-trailing-slash"); add("GET", format!("{p}//"), "doubled-separator"); }
+        // near misses
+        if p.len() > 1 { add("GET", p[..p.len() - 1].to_string(), "near-miss:shorter"); }
+        add("GET", format!("{p}x"), "near-miss:longer");
+        if let Some(i) = p.rfind('/') { if i > 0 {
+            add("GET", format!("{}//{}", &p[..i], &p[i + 1..]), "doubled-separator");
+            add("GET", format!("{}%2F{}", &p[..i], &p[i + 1..]), "encoded-separator");
+            add("GET", format!("{}/../{}", &p[..i], &p[i + 1..]), "dotdot");
+            add("GET", format!("{}/x/../{}", &p[..i], &p[i + 1..]), "dotdot");
+            add("GET", format!("{}/%2e%2e/{}", &p[..i], &p[i + 1..]), "dotdot-encoded");
+        } }
+    }
+    for (dir, name) in &c.entries {
+        let dp = if dir.is_empty() { base.clone() } else { format!("{base}/{dir}") };
+        // directory paths, extension variants
+        add("GET", if dp.is_empty() { "/".into() } else { dp.clone() }, "directory");
+        add("GET", format!("{dp}/"), "directory");
+        add("GET", format!("{dp}/{name}"), "full-name");
+        let stem = &name[..name.rfind('.').unwrap()];
+        add("GET", format!("{dp}/{stem}"), "stem");
+        add("GET", format!("{dp}/{stem}."), "near-miss:dot");
+        add("GET", format!("{dp}/{name}.{}", name.rsplit('.').next().unwrap()), "near-miss:double-ext");
+        if !dir.is_empty() { add("GET", format!("{base}/{name}"), "wrong-directory"); }
+    }
+    for p in ["/secret.txt", "/outside/secret.txt", "/ln.txt", "/../outside/secret.txt", "/served/a.txt", "/new.txt", "/zz"] {
+        add("GET", format!("{base}{p}"), "outside");
+    }
+    add("GET", "/..".into(), "dotdot"); add("GET", "/".into(), "root"); add("GET", format!("{base}/%2e%2e/outside/secret.txt"), "dotdot-encoded");
+    out
+}
+
+fn check_config(ctx: &mut Ctx, c: &Config, only: Option<(&str, &str)>) {
+    let exp = match expected_map(c) { Ok(m) => m, Err(_) => { ctx.skip(); return } }; // two files -> one path: documented as unsupported
+    let root = work_root();
+    let served = match materialize(c, &root) { Ok(s) => s, Err(e) => { ctx.machinery_error(format!("cannot create tree: {e}")); return } };
+    let router = build(c, &served);
+    if c.mutate_after_mount && router.is_ok() {
+        if let Some((d, n)) = c.entries.first() { let _ = std::fs::write(served.join(d).join(n), b"MODIFIED AFTER START-UP"); }
+        if c.entries.len() > 1 { let (d, n) = c.entries.last().unwrap(); let _ = std::fs::remove_file(served.join(d).join(n)); }
+        let _ = std::fs::write(served.join("new.txt"), b"added after start-up");
+    }
+    let router = match router {
+        Ok(r) => r,
+        Err(p) => {
+            let _ = std::fs::remove_dir_all(&root);
+            // a directory named `ab` next to a file that maps to `/ab` etc. is a registration conflict the framework reports: out of domain
+            if p.contains("Conflicting") { ctx.skip(); return }
+            ctx.violation(&format!("C19/registration/{}/rejected:{}", if c.symlink_outside { "symlink" } else { "plain" }, panic_kind(&p)), true, || json!({"config": c, "observed": format!("panic: {p}")}));
+            return
+        }
+    };
+    ctx.states += 1;
+    // reference routing table: the files, plus the param sibling
+    let mut table: Vec<Entry> = exp.keys().map(|p| Entry { segs: crate::appgen::split_route(p), method: "GET".into(), hid: format!("file:{p}") }).collect();
+    if c.param_sibling {
+        let mut segs = crate::appgen::split_route(&c.mount); segs.push(":p".into());
+        table.push(Entry { segs, method: "GET".into(), hid: "param".into() });
+    }
+    let amb = ambiguous_paths(c);
+    let reqs = match only { Some((m, p)) => vec![(m.to_string(), p.to_string(), "replay")], None => requests(c, &exp) };
+    for (method, path, kind) in &reqs {
+        ctx.transitions += 1;
+        let out = app::oneshot(&router, &app::request(method, path, &[("Host", "h")], b""));
+        let adm = admissible(&table, method, path);
+        let witness = |note: String| json!({"config": c, "method": method, "path": path, "kind": kind, "observed": out.kind(),
+            "observed_content_type": out.parsed().and_then(|p| p.header("Content-Type").map(str::to_string)), "observed_body": out.body().map(|b| crate::core::esc(&b[..b.len().min(80)])), "note": note});
+        let feature = if c.symlink_outside { "symlink-outside" } else if c.mutate_after_mount { "modified-after-mount" } else if !c.omit.is_empty() { "omit" } else { "plain" };
+        let trimmed = path.trim_end_matches('/');
+        if amb.iter().any(|a| a == trimmed) || path.contains('%') && !path.contains("%2F") && !path.contains("%2e") { ctx.ambiguous(kind); continue }
+        if adm.len() != 1 { ctx.ambiguous("routing-reading"); continue }
+        match adm.into_iter().next().unwrap() {
+            Match::Handler { hid, .. } if hid.starts_with("file:") => {
+                let (_rel, bytes, mime) = &exp[&hid[5..]];
+                match &out {
+                    Outcome::Response { parsed: Ok(p), .. } if p.status == 200 => {
+                        let ct_ok = p.header("Content-Type").map(|ct| ct == *mime || ct.starts_with(&format!("{mime};"))).unwrap_or(false);
+                        let body_ok = if method == "HEAD" { p.body.is_empty() } else { p.body == *bytes };
+                        if !ct_ok { ctx.violation(&format!("C19/{feature}/{kind}/wrong-content-type"), true, || witness(format!("expected {mime}"))) }
+                        else if !body_ok { ctx.violation(&format!("C19/{feature}/{kind}/wrong-bytes"), true, || witness(format!("expected {} bytes", bytes.len()))) }
+                        else { ctx.pass(&format!("served:{kind}:{mime}"), true, matches!(*kind, "file-trailing-slash" | "file-head") || c.param_sibling) }
+                    }
+                    Outcome::Response { parsed: Err(e), raw, .. } => {
+                        // the message is not well-formed: say how (the usual reason: declared length != bytes that follow)
+                        let e = e.clone(); let n = raw.len();
+                        let sym = if e.contains("after the end of the message") { "body-not-covered-by-content-length".to_string() } else { format!("malformed:{}", panic_kind(&e)) };
+                        ctx.violation(&format!("C19/{feature}/{}/{}", if bytes.is_empty() { "empty-file" } else { "file" }, sym), true, || witness(format!("{e}; {n} bytes on the wire")))
+                    }
+                    other => ctx.violation(&format!("C19/{feature}/{kind}/not-served({})", other.kind()), true, || witness("file should be served".into())),
+                }
+            }
+            Match::Handler { .. } => match out.body() {
+                Some(b) if b.starts_with(b"PARAM:") => ctx.pass(&format!("param-sibling:{kind}"), true, true),
+                _ => ctx.violation(&format!("C19/{feature}/{kind}/param-sibling-not-reached({})", out.kind()), true, || witness("the sibling param route should answer".into())),
+            },
+            Match::NoHandler => match &out {
+                Outcome::Response { parsed: Ok(p), .. } if p.status == 404 || (p.status == 405 && *method != "GET") => ctx.pass(&format!("404:{kind}"), true, matches!(*kind, "dotdot" | "dotdot-encoded" | "encoded-separator" | "doubled-separator" | "outside")),
+                other => ctx.violation(&format!("C19/{feature}/{kind}/served-should-404({})", other.kind()), true, || witness("nothing is registered at this path".into())),
+            },
+        }
+    }
+    ctx.sample(|| json!({"config": c, "requests": reqs.len(), "expected_paths": exp.keys().collect::<Vec<_>>() }));
+    let _ = std::fs::remove_dir_all(&root);
+}
+
+pub fn run(ctx: &mut Ctx) {
+    app::pin_clock();
+    let quick = ctx.quick();
+    let all_entries: Vec<(String, String)> = DIRS.iter().flat_map(|d| FILES.iter().map(move |f| (d.to_string(), f.to_string()))).collect();
+    let omits: Vec<Vec<String>> = vec![vec![], vec!["html".into()], vec!["html".into(), "txt".into()]];
+    let mounts = ["/", "/s", "/s/t"];
+    let max_entries = if quick { 2 } else { 3 };
+    for k in 1..=max_entries {
+        for combo in combinations(all_entries.len(), k) {
+            // thorough, 3 entries: at most one entry outside the two shallowest directories keeps the count near 10^5
+            if k == 3 && combo.iter().filter(|&&i| all_entries[i].0.contains('/')).count() > 1 { continue }
+            for (oi, omit) in omits.iter().enumerate() { for (mi, mount) in mounts.iter().enumerate() {
+                if quick && k == 2 && (combo[0] + combo[1] + oi + mi) % 3 != 0 { continue }
+                if k == 3 && (combo[0] + combo[1] + combo[2] + oi + mi) % 3 != 0 { continue }
+                for variant in 0..4 {
+                    if k > 1 && variant > 0 && (combo[0] + variant) % 2 == 0 { continue }
+                    if !ctx.mine() { continue }
+                    if ctx.out_of_time() { return }
+                    let c = Config { entries: combo.iter().map(|&i| all_entries[i].clone()).collect(), omit: omit.clone(), mount: mount.to_string(),
+                        param_sibling: variant == 1, symlink_outside: variant == 2, mutate_after_mount: variant == 3 };
+                    check_config(ctx, &c, None);
+                }
+            } }
+        }
+    }
+    ctx.extra.insert("rule".into(), json!("case = (directory tree on disk, omit_extensions, mount route, variant {plain, sibling param route, symlink to an outside file, files modified/deleted/added after mounting}, request); non-trivial = every case (each request is compared with the path->(bytes,mime) map of the tree); collision = requests built to hit a shortcut: trailing slash / HEAD on a file, traversal and encoded/doubled separators, paths of outside files, requests next to a sibling param route"));
+    ctx.extra.insert("bounds".into(), json!({"dirs": DIRS, "files": FILES, "entries_per_tree": max_entries, "omit": omits, "mounts": mounts, "variants": 4,
+        "thinning": if quick { "pairs: one third of (tree, omit, mount) combinations; variants on half of the pairs" } else { "triples: one third of combinations, at most one entry in a depth-2 directory" }}));
+    ctx.traces_validated = ctx.transitions;
+}
+
+pub fn replay(ctx: &mut Ctx, case: &Value) {
+    app::pin_clock();
+    let c: Config = serde_json::from_value(case["config"].clone()).expect("config");
+    match (case["method"].as_str(), case["path"].as_str()) {
+        (Some(m), Some(p)) => check_config(ctx, &c, Some((m, p))),
+        _ => check_config(ctx, &c, None),
+    }
+}
